@@ -456,7 +456,14 @@ pub fn gen_c05(run: &mut Run, seed: u64, thorough: bool) {
                 }
             }
             let custody = parse_i128(&i.op(&format!("tok.balance {} {}", taddr.tok(), i.its.tok()), "q"));
-            match i.g.rng.below(12) {
+            match i.g.rng.below(13) {
+                12 => {
+                    // a hub deploy message naming an id that is already taken (native or canonical, possibly with funds in
+                    // custody): must be refused, and later inbound transfers must keep using the registered token
+                    let p = deploy_payload(&env, b"ethereum", &tid, b"Squat", b"SQ", 6, None);
+                    i.deliver(&p, &format!("inbound-deploy-onto-taken-{kind}-id"));
+                    i.op(&format!("its.token_address {}", hex::encode(tid)), "q");
+                }
                 0..=4 => {
                     // outbound: mostly valid, at most ONE deviation (amount / destination / gas / authorisation)
                     let dev = i.g.rng.below(10);
